@@ -100,6 +100,11 @@ pub(crate) fn extract_variable(
             {
                 break
             }
+            Expression_::Try(body, _, handler)
+                if block_contains_id(body, *expr_id) || block_contains_id(handler, *expr_id) =>
+            {
+                break
+            }
             Expression_::Let(_, _, _) => {
                 enclosing_block_level_expr = Some(expr.clone());
                 break;
